@@ -232,6 +232,9 @@ impl<E: ElemT> TableWorld<E> {
         }
         self.ctx.note_state(&d);
         self.ctx.group_monitor(&d)?;
+        if let Some((c, det)) = dump::check_budget(&d) {
+            vio!(self, c, "{det}");
+        }
         let act = self.actual(si);
         if act.iter().any(|x| !x.1) {
             vio!(self, "ledger/invalid-ref", "the table holds an element that is not live");
